@@ -256,6 +256,7 @@ func genCodeTopics(p *pkgInfo, repo, codeFile string) (partial bool) {
 	var results []*topicOut
 	var topics []topic
 	// the root package first, then the sub-packages (fourth part) in the order of topics4
+	repoDir = repo // code_opq.go
 	var rootTopics []topic
 	rootTopics = append(rootTopics, codeTopics...)
 	var subPkgs []string
@@ -454,6 +455,7 @@ func translateTopics(p *pkgInfo, topicsIn []topic, withMisc bool, prefix string,
 			broken = append(broken, n)
 		}
 	}
+	c.registerSP(topics) // code_opq.go: opaque methods count as mutating
 	allRefused := ""
 	if refused, msg := guarded(func() { c.computeMutates() }); refused {
 		allRefused = msg
